@@ -17,7 +17,7 @@ if not d.endswith("-a") and os.path.exists("/tmp/used_sites.json"):  # rounds b,
           "\n\nGo for the less central parts of what the property covers: secondary functions named in the anchors, in-place (`&mut self`) twins, by-reference operand forms and trait impls for `&T`, "
           "one particular vector size or kind (Vec8..Vec64, Extent, Rgb/Rgba, Uv/Uvw - enable cargo features as needed and say so), one matrix size or layout, conversions between types, "
           "clamped vs unclamped / precise vs fast variants, deprecated aliases, degenerate-input branches, behaviour that only differs after a *sequence* of calls.\n")
-        if d.endswith("-c") or d.endswith("-d") or d.endswith("-e") or d.endswith("-f"):
+        if d.endswith("-c") or d.endswith("-d") or d.endswith("-e") or d.endswith("-f") or d.endswith("-g"):
             extra+=("\nFor this round, make A and B come from two DIFFERENT categories of this list (say which): "
               "(1) a value-dependent shortcut - a fast path, early return, epsilon/threshold guard, clamp, saturating or sign-dependent branch that is right for ordinary values and wrong for some (zero, negative, tiny, huge, equal, NaN/inf where the statement covers them); "
               "(2) a numerically different but algebraically 'equivalent' rewrite that loses accuracy or overflows/underflows only for particular magnitudes or operand relations; "
@@ -34,6 +34,15 @@ if not d.endswith("-a") and os.path.exists("/tmp/used_sites.json"):  # rounds b,
             extra+=("\nThis is the sixth round, and you only need to deliver change A (skip B entirely: no B.diff, B_demo.rs, B.md).  Go through the property STATEMENT phrase by phrase and through its quantifier text, "
               "and pick the phrase, operand form, element type, vector kind/size, matrix layout, cargo feature or build profile (e.g. behaviour that differs between debug and release builds) that you judge LEAST likely to be exercised by an "
               "automated checker that was written from this same statement - then break exactly that, as locally as possible.  Explain in A.md why you think a checker would overlook it.\n")
+        if d.endswith("-g"):
+            extra+=("\nThis is the seventh round, and you only need to deliver change A (skip B entirely: no B.diff, B_demo.rs, B.md).  Single-site slips in the anchored functions, their private helpers and the debug/release build profile are exhausted (see the list above). "
+              "Choose ONE of these angles (say which) and stay inside what the property STATEMENT really covers: "
+              "(a) a MULTI-STEP HISTORY: the statement holds for a fresh value but fails after a particular sequence of two or three public calls (an in-place method, then a conversion, then a read; an iterator advanced from both ends and then cloned/compared/collected; a matrix transposed in place and then indexed or multiplied); "
+              "(b) TWO COOPERATING SITES in two different files or macro arms, each harmless alone (e.g. a helper changes its convention and only ONE of its callers is adapted); "
+              "(c) an impl of a STANDARD TRAIT that the statement's wording covers (`Sum`/`Product`, `From`/`Into` tuples, arrays and slices, `Index`/`IndexMut`, `IntoIterator` for `&`/`&mut`, `Default`, `Zero`/`One`, `Display`, `Hash`, `PartialOrd`, `AsRef`/`AsMut`, `Deref`, `Mul`/`MulAssign` between different types, by-reference operator forms) for ONE particular type/size/layout only; "
+              "(d) a rarely used ELEMENT TYPE or GENERIC INSTANTIATION (unsigned integers, `Wrapping<_>`, `bool` lanes, f32 vs f64, an element type that is not `Copy`-cheap or has size != alignment, a Vec of Vecs), where the generic code takes a different route; "
+              "(e) an input that is legal but ODD for the statement (a degenerate/empty/inverted box, zero-length axis, factor exactly at 0 or 1 or beyond, NaN/infinite lanes where the statement covers floats, the most negative integer, an angle of exactly pi or 2 pi, a matrix that is singular or a reflection) and that hits only ONE lane, ONE row/column or ONE of several similar functions. "
+              "Keep the edit small (a few lines), realistic, and such that a careful reviewer could plausibly approve it.\n")
         if d.endswith("-e") or d.endswith("-f"):
             extra+=("\nThis is the fifth round.  Everything above is taken, and single-site slips in the functions named by the anchors are largely exhausted.  Look instead at: "
               "code OUTSIDE the anchored functions that they depend on (private helpers, trait impls in src/ops.rs or src/vec.rs that the anchored code calls, `From`/`Into` conversions used internally, "
